@@ -20,7 +20,7 @@ Not decided: all interleavings of the two streams.
 import re
 
 from facts import short_name
-from kinds import (k1_callers, k1_constructors, comparisons, result_blocks, k2_site_guarded,
+from kinds import (rel, k1_callers, k1_constructors, comparisons, result_blocks, k2_site_guarded,
                    on_all_success_paths, bool_payload_edges)
 
 CRATES = ["astria_conductor.lib", "astria_core.lib"]
@@ -273,7 +273,7 @@ def x4(prog, rep):
         rep.check(oe["kind"] == "try" and b.must_pass_edges(set(oe["ok"]), adds[0].bb), "X4",
                   "pop:+1<=removed", "next_height advances although no block was removed", b.describe())
     b = prog.main_body(BC + "insert")
-    lt = [c for c in comparisons(b) if c.op == "Lt" and c.b == "self.next_height"]
+    lt = rel(b, "Lt", r".", r"^self\.next_height$")
     ent = [c for c in b.calls if c.matches(r"BTreeMap::<K, V, A>::entry$|VacantEntry::<.*>::insert$")]
     rep.check(bool(lt) and bool(ent) and all(b.must_pass_edges(set(lt[0].false_edges), e.bb) for e in ent),
               "X4", "insert<=not-old", "a block below next_height can be inserted into the cache",
@@ -297,8 +297,7 @@ def x5(prog, rep):
     for o in prog.owners(r"^astria_core::execution::v2::CommitmentStateBuilder::<.*>::build$"):
         b = prog.main_body(o)
         oks = result_blocks(b, "Ok")
-        gt = [c for c in comparisons(b) if c.op == "Gt" and "firm_executed_block_metadata" in c.a
-              and "soft_executed_block_metadata" in c.b]
+        gt = rel(b, "Gt", r"firm_executed_block_metadata", r"soft_executed_block_metadata")
         rep.check(bool(gt) and bool(oks) and all(b.must_pass_edges(set(gt[0].false_edges), k) for k in oks),
                   "X5", "build<=firm<=soft",
                   "a CommitmentState with firm.number > soft.number can be built", b.describe())
